@@ -3,6 +3,8 @@
   prints one verdict per line (`<id> P=.. C=.. B=.. [msg]`).  Core-only executable.
 -/
 import EtVerif.Driver.C09
+import EtVerif.Driver.C11
+import EtVerif.Driver.C08
 
 open EtVerif EtVerif.Driver
 
@@ -12,6 +14,10 @@ def judgeLine (line : String) : String :=
   | id :: prop :: op :: rest =>
     let p : P Verdict := match prop with
       | "C09" => judgeC09 op
+      | "C10" => judgeC10 op
+      | "C11" => judgeC11 op
+      | "C08" => judgeC08 op
+      | "C04" => judgeC04 op
       | _ => throw s!"unknown property {prop}"
     match p.run rest with
     | .ok (v, []) => s!"{id} {v.render}"
